@@ -252,4 +252,5 @@ theorem C14_never_deaf (d : Beh) (msgs : List (List Op)) :
   rw [(C14_holds d msgs).1]
   exact doc_handlers_some d [d] (by simp) msgs
 
+
 end GoaktVerif.C14
